@@ -120,6 +120,25 @@ func c12(ctx *Ctx) (*Outcome, error) {
 			d := &sg.Schema{Types: []string{"object"}, Props: []sg.Prop{{Name: "v", S: &sg.Schema{Types: []string{"integer"}}}}, Required: []string{"v"}}
 			big.Defs = append(big.Defs, sg.Prop{Name: fmt.Sprintf("Bulk%02d", (k*3)%10), S: d})
 		}
+		{
+			// places where the ORDER of a two-element type list is compared: equal definitions that contend for one Go
+			// name (merged or declared twice), a type-less definition whose composition members all carry the same
+			// nullable list, a declared schema with two non-null types
+			mkDup := func() *sg.Schema {
+				return &sg.Schema{Types: []string{"object"}, Props: []sg.Prop{{Name: "line", S: &sg.Schema{Types: []string{"string", "null"}}}, {Name: "zip", S: &sg.Schema{Types: []string{"null", "integer"}}}}}
+			}
+			d1, d2 := mkDup(), mkDup()
+			member := func(k string) *sg.Schema {
+				return &sg.Schema{Types: []string{"object", "null"}, Props: []sg.Prop{{Name: k, S: &sg.Schema{Types: []string{"string"}}}}, Required: []string{k}}
+			}
+			contact := &sg.Schema{AnyOf: []*sg.Schema{member("mail"), member("phone")}}
+			either := &sg.Schema{Types: []string{"string", "integer"}}
+			big.Defs = append(big.Defs, sg.Prop{Name: "DetDupAddr", S: d1}, sg.Prop{Name: "detDupAddr", S: d2}, sg.Prop{Name: "DetContact", S: contact}, sg.Prop{Name: "DetEither", S: either})
+			if len(big.Types) == 1 && big.Types[0] == "object" {
+				big.Props = append(big.Props, sg.Prop{Name: "detOffice", S: &sg.Schema{Ref: "#/$defs/DetDupAddr", Target: d1}}, sg.Prop{Name: "detHome", S: &sg.Schema{Ref: "#/$defs/detDupAddr", Target: d2}},
+					sg.Prop{Name: "detContact", S: &sg.Schema{Ref: "#/$defs/DetContact", Target: contact}}, sg.Prop{Name: "detEither", S: &sg.Schema{Ref: "#/$defs/DetEither", Target: either}})
+			}
+		}
 		if i%4 == 2 {
 			// keywords the generator does not (fully) support, each with several entries: whatever it makes of them,
 			// it makes the same of them in every process
